@@ -50,7 +50,8 @@ class StatusError(Exception):
 class Call:
   """One RPC, as seen by the fault policy and the recorder."""
   __slots__ = ('idx', 'addr_idx', 'address', 'method', 'origin', 'future',
-               'payload', 'timeout', 'start', 'outcome', 'node', 'faults')
+               'payload', 'timeout', 'start', 'outcome', 'node', 'faults',
+               'faults_pending')
 
   def __init__(self, idx, addr_idx, address, method, origin, future, payload,
                timeout, start):
@@ -66,6 +67,7 @@ class Call:
     self.outcome = None
     self.node = None
     self.faults = []
+    self.faults_pending = ()
 
   def brief(self):
     return (self.idx, self.address, self.method, self.addr_idx, self.outcome,
